@@ -665,3 +665,88 @@ func knownPeersConnectionReachesAnFSM(c *core.Ctx, rule string) {
 	})
 	c.Check(n >= 1, rule, f.Name()+" closes connections from unknown sources", f.Decl.Pos(), "no Close found")
 }
+
+// negotiatedHoldTimeReadAfterItIsStored: FSM.holdTime is the NEGOTIATED hold time of the session being set up; until the
+// received OPEN has been processed the field still holds the previous session's value (0 on a fresh FSM).  In the OPEN
+// handling of OpenSent every read of it comes after the store of min(configured, offered): a guard evaluated earlier
+// decides with the previous session's value, so on a first session the hold timer is never refreshed (the session is
+// torn down a second later) — or is kept running after a hold time of 0 was agreed.
+func negotiatedHoldTimeReadAfterItIsStored(c *core.Ctx, rule string) {
+	ht := c.P.Field(srv, "FSM", "holdTime")
+	entry := c.MustFunc(srv + ".(*openSentState).openMsgReceived")
+	if ht == nil || entry == nil {
+		c.Check(false, rule, "anchors", 0, "FSM.holdTime or openSentState.openMsgReceived not found")
+		return
+	}
+	isStoreNode := func(f *core.Fn) func(ast.Node) bool {
+		return func(nd ast.Node) bool {
+			as, ok := nd.(*ast.AssignStmt)
+			if !ok {
+				return false
+			}
+			for _, l := range as.Lhs {
+				if core.FieldOf(f.Pkg, l) == ht {
+					return true
+				}
+			}
+			return false
+		}
+	}
+	readsIn := func(f *core.Fn, nd ast.Node) bool {
+		lhs := map[ast.Expr]bool{}
+		ast.Inspect(nd, func(x ast.Node) bool {
+			if as, ok := x.(*ast.AssignStmt); ok {
+				for _, l := range as.Lhs {
+					lhs[core.Unparen(l)] = true
+				}
+			}
+			return true
+		})
+		return core.NodeHas(nd, func(x ast.Node) bool {
+			e, ok := x.(ast.Expr)
+			return ok && !lhs[e] && core.FieldOf(f.Pkg, e) == ht
+		})
+	}
+	// the functions of the OPEN handling: the entry and its same-type callees; "stores" = stores directly or through a callee
+	stores := map[*core.Fn]bool{}
+	var fns []*core.Fn
+	for _, g := range c.P.ReachableFns(entry) {
+		if g.Decl.Body == nil || g.Decl.Recv == nil || !strings.Contains(g.Name(), "openSentState") {
+			continue
+		}
+		fns = append(fns, g)
+		if core.NodeHas(g.Decl.Body, isStoreNode(g)) {
+			stores[g] = true
+		}
+	}
+	n := 0
+	for _, g := range fns {
+		g := g
+		gate := func(nd ast.Node) bool {
+			if isStoreNode(g)(nd) {
+				return true
+			}
+			return core.NodeHas(nd, func(x ast.Node) bool {
+				cl, ok := x.(*ast.CallExpr)
+				if !ok {
+					return false
+				}
+				h := c.P.FnOf(core.Callee(g.Pkg, cl))
+				return h != nil && stores[h]
+			})
+		}
+		if !stores[g] && !core.NodeHas(g.Decl.Body, gate) {
+			continue // neither stores nor leads to the store: reads here are after the negotiation only if its callers are; not on the OPEN path before the store
+		}
+		n++
+		c.Analysed(g)
+		bad := core.PathAvoiding(c.P.CFG(g), gate, func(nd ast.Node) bool { return readsIn(g, nd) })
+		at := g.Decl.Pos()
+		if len(bad) > 0 {
+			at = bad[0].Pos()
+		}
+		c.Check(len(bad) == 0, rule, g.Name()+" reads the hold time only after the negotiated value is stored", at,
+			"FSM.holdTime is read on the way to the store of the negotiated hold time: the value read is the previous session's (0 on a fresh FSM), so the guard it feeds decides for the wrong session")
+	}
+	c.Check(n >= 2, rule, "functions of the OPEN handling that store (or lead to the store of) the hold time", entry.Decl.Pos(), fmt.Sprintf("only %d found", n))
+}
